@@ -58,6 +58,7 @@ def handle : Handler
   | "alias_cdiv_r", args => run3 cdiv_r args
   | "alias_mod", args => run3 AliasMem.mod args
   | "alias_divexact", args => run3 divexact args
+  | "alias_gcd", args => run3 mpz_gcd args
   | "alias_and", args => run3 mpz_and args
   | "alias_ior", args => run3 mpz_ior args
   | "alias_xor", args => run3 mpz_xor args
